@@ -47,6 +47,23 @@ def main():
     B2, E2 = "<!-- SEEDED-TABLE-BEGIN -->", "<!-- SEEDED-TABLE-END -->"
     if B2 in s:
         s = re.sub(re.escape(B2) + r".*?" + re.escape(E2), lambda _: B2 + "\n" + "\n".join(srows) + "\n" + E2, s, flags=re.S)
+    # behaviour-preserving changes (benign/<name>/{meta,result}.json)
+    brows = ["| change (kind) | what was changed | checks run → outcome |", "|---|---|---|"]
+    bd = os.path.join(HERE, "benign")
+    for name in sorted(os.listdir(bd)) if os.path.isdir(bd) else []:
+        mp = os.path.join(bd, name, "meta.json")
+        if not os.path.exists(mp):
+            continue
+        m = json.load(open(mp))
+        rp = os.path.join(bd, name, "result.json")
+        res = json.load(open(rp)) if os.path.exists(rp) else {}
+        def cell(x, n=260):
+            return " ".join(str(x).replace("|", "/").split())[:n]
+        out = "; ".join("%s: %s" % (k, cell(v, 150)) for k, v in res.items()) or "not run yet"
+        brows.append("| `%s` | %s | %s |" % (name, cell(m.get("title", "")), out))
+    B3, E3 = "<!-- BENIGN-TABLE-BEGIN -->", "<!-- BENIGN-TABLE-END -->"
+    if B3 in s:
+        s = re.sub(re.escape(B3) + r".*?" + re.escape(E3), lambda _: B3 + "\n" + "\n".join(brows) + "\n" + E3, s, flags=re.S)
     if BEGIN in s:
         s = re.sub(re.escape(BEGIN) + r".*?" + re.escape(END), lambda _: BEGIN + "\n" + table + "\n" + END, s, flags=re.S)
     else:
